@@ -148,14 +148,14 @@ PROPS = {
         "level": "fault_enumeration",
         "rule": ("reader faults: every byte offset 0..=len (quick: up to 700 sampled offsets, rotating kinds) of the small bundled files, 256 sampled "
                  "offsets of the large ones (thorough) and of generated files in four encodings x error kinds {Other, UnexpectedEof, PermissionDenied, "
-                 "TimedOut, WouldBlock} x reader chunk sizes {1,7,64,8192}; writer faults: every (sampled) output offset x {error, Ok(0)} + flush-only "
+                 "TimedOut, WouldBlock} x reader chunk sizes {1,7,64,8192} x {persistent, one-shot} faults; writer faults: every (sampled) output offset x {error, Ok(0)} + flush-only "
                  "failure + short-write/Interrupted schedules. A fault counts only if the injecting reader/writer actually fired. One evaluation = one "
                  "fired fault; distinct = (file, fault ordinal)"),
         "assumptions": COMMON_ASSUMPTIONS + ["the injected error carries a marker payload so the oracle can tell that exactly this error was returned"],
         "quick": [leg("main", "rel", 16, 60, timeout=600, max_secs=150)],
         "thorough": [leg("main", "rel", 16, 400, timeout=3600, max_secs=1500)],
         "min": {"faults_injected": 20000, "reader_fault_Other": 500, "reader_fault_WouldBlock": 500, "writer_fault_Error": 1000,
-                "writer_fault_Zero": 1000, "writer_fault_Flush": 20, "short_write_schedules": 100, "interrupts_fired": 200},
+                "writer_fault_Zero": 1000, "writer_fault_Flush": 20, "reader_faults_one_shot": 2000, "short_write_schedules": 100, "interrupts_fired": 200},
     },
     "C10": {
         "level": "exploration",
